@@ -109,6 +109,11 @@ fn fuzzy_match(key: &[u16], q: &[u16]) -> bool {
         })
 }
 
+/// `entries_iter_for` scans the pending tree up to the *exclusive* bound `MAX_PHRASE = "\u{10FFFF}"`
+fn beyond_max(t: &str) -> bool {
+    t >= "\u{10FFFF}"
+}
+
 /// The property's reference: a plain map.  `add` is rejected on a live key (as `TrieBuf` does).
 #[derive(Clone, Default)]
 struct Ref {
@@ -269,11 +274,15 @@ impl Tracker {
             }
         }
         for ((key, t), v) in &self.pending {
-            if key == q && !self.grave.contains(&(q.to_vec(), t.clone())) {
+            if key == q && !beyond_max(t) && !self.grave.contains(&(q.to_vec(), t.clone())) {
                 c.push((t.clone(), *v));
             }
         }
         c
+    }
+    /// class `MaxCodePointPhrase`: a live pending phrase of `q` outside the scanned range
+    fn beyond_max_pending(&self, q: &[u16]) -> bool {
+        self.pending.keys().any(|(k, t)| k == q && beyond_max(t) && !self.grave.contains(&(k.clone(), t.clone())))
     }
     /// class F36 `FuzzyOverTombstoneOrPending`: the pending tree or the graveyard holds a key other
     /// than the query that matches it, or a tombstone of the query hides a persisted phrase of
@@ -337,6 +346,8 @@ fn check_triebuf(cx: &mut Ctx, kind: &str, d: &dyn Dictionary, r: &Ref, tr: &Tra
             let pred = dedup_max(tr.candidates(k, false, true));
             let class = if got.as_ref() == Some(&pred) && spec.keys().any(|t| tr.shadowed(&(k.clone(), t.clone()))) {
                 "UpdatePersisted"
+            } else if got.as_ref() == Some(&pred) && tr.beyond_max_pending(k) {
+                "MaxCodePointPhrase"
             } else {
                 "new"
             };
@@ -359,6 +370,8 @@ fn check_triebuf(cx: &mut Ctx, kind: &str, d: &dyn Dictionary, r: &Ref, tr: &Tra
                 "new"
             } else if nof10_ok && tr.any_shadowed() {
                 "UpdatePersisted"
+            } else if tr.beyond_max_pending(k) {
+                "MaxCodePointPhrase"
             } else if tr.in_fuzzy_class(k) {
                 "FuzzyOverTombstoneOrPending"
             } else {
@@ -874,6 +887,9 @@ fn main() {
         Op::Add(ce4.clone(), "冊".into(), 1, Some(1)),
     ];
     guarded(&mut cx, "F36 witness", |cx| run_triebuf(cx, &p, &mut Rng::new(1), true, Some((vec![ce4.clone(), c.clone()], s)), 0));
+    // MaxCodePointPhrase (known): a pending phrase beginning with U+10FFFF is enumerated but never looked up
+    let s = vec![Op::Add(ce4.clone(), "\u{10FFFF}".into(), 1, Some(0))];
+    guarded(&mut cx, "MaxCodePointPhrase witness", |cx| run_triebuf(cx, &p, &mut Rng::new(1), false, Some((vec![ce4.clone()], s)), 0));
     // F11 (fixed by 4ff32a2): first n of a 4-phrase leaf
     let es: Vec<E> = ["測", "冊", "a", "é"].iter().map(|t| (ce4.clone(), t.to_string(), 1u32, None)).collect();
     guarded(&mut cx, "F11 witness", |cx| run_trie(cx, &p, &mut Rng::new(1), Some((vec![ce4.clone(), c.clone()], es))));
@@ -881,19 +897,19 @@ fn main() {
     // ---- random histories
     let scale = if thorough { 20 } else { 1 };
     let len = 30;
-    for _ in 0..120 * scale {
+    for _ in 0..500 * scale {
         let mut r2 = Rng::new(rng.next());
         guarded(&mut cx, "mem history", |cx| run_triebuf(cx, &p, &mut r2, false, None, len));
     }
-    for _ in 0..160 * scale {
+    for _ in 0..700 * scale {
         let mut r2 = Rng::new(rng.next());
         guarded(&mut cx, "file history", |cx| run_triebuf(cx, &p, &mut r2, true, None, len));
     }
-    for _ in 0..300 * scale {
+    for _ in 0..1000 * scale {
         let mut r2 = Rng::new(rng.next());
         guarded(&mut cx, "trie", |cx| run_trie(cx, &p, &mut r2, None));
     }
-    for _ in 0..80 * scale {
+    for _ in 0..300 * scale {
         let mut r2 = Rng::new(rng.next());
         guarded(&mut cx, "layered history", |cx| run_layered(cx, &p, &mut r2, 20));
     }
